@@ -47,8 +47,8 @@ try:
     shutil.copy(demo_src, dst)
     cmd = meta['demo_run_cmd']
     cmd = re.split(r'\s{2,}\(|\s+\(also ', cmd)[0]
-    cmd = re.sub(r'cd /tmp/mut[23]?/c\d\d\s*&&\s*', '', cmd)
-    cmd = re.sub(r'/tmp/mut[23]?/c\d\d', WT, cmd)
+    cmd = re.sub(r'cd /tmp/mut\d?/c\d\d\s*&&\s*', '', cmd)
+    cmd = re.sub(r'/tmp/mut\d?/c\d\d', WT, cmd)
     res = {}
     # without the patch
     rc0, out0 = sh(cmd, cwd=WT)
